@@ -331,3 +331,213 @@ pub fn gen_cold_src(c: &mut dyn Choices, max_len: usize, alphabet: usize) -> Src
     _ => Src::FromIter(gen_vs(c, max_len, alphabet)),
   }
 }
+
+// ------------------------------------------------------ pipeline cases -----
+
+#[derive(Clone, Copy, Debug, PartialEq, Eq, Hash)]
+pub enum SchedMode {
+  Fifo,
+  Lazy,
+  AnyOrder,
+}
+
+#[derive(Clone, Copy, Debug, PartialEq, Eq, Hash)]
+pub enum IKind {
+  Subject,
+  Create,
+  Behavior,
+}
+
+#[derive(Clone, Debug, PartialEq, Eq, Hash)]
+pub enum Step {
+  Emit(usize, Ev),
+  /// advance the virtual clock by n ticks
+  Advance(u64),
+  /// jump to the next pending timer and fire it
+  FireNext,
+  /// run the executor until stalled (FIFO order)
+  Run,
+  /// AnyOrder: run the k-th ready task (mod number of ready tasks)
+  RunReady(usize),
+  Unsub,
+  DropGuard,
+}
+
+#[derive(Clone, Debug, PartialEq, Eq, Hash)]
+pub struct PCase {
+  pub node: Node,
+  pub kinds: Vec<IKind>,
+  pub script: Vec<Step>,
+  pub mode: SchedMode,
+  pub threads: bool,
+}
+
+pub struct GenCfg {
+  pub n_inputs: usize,
+  pub alphabet: usize,
+  pub time_ops: bool,
+  pub flat_ops: bool,
+  pub share_ops: bool,
+  /// every hot input may be used by several leaves
+  pub reuse_inputs: bool,
+}
+
+fn gen_leaf(c: &mut dyn Choices, cfg: &GenCfg, kinds: &[IKind], next_input: &mut usize) -> Node {
+  let hot_ok = cfg.reuse_inputs || *next_input < cfg.n_inputs;
+  if hot_ok && c.pick(4) != 0 {
+    let i = if cfg.reuse_inputs { c.pick(cfg.n_inputs) } else { *next_input };
+    *next_input += 1;
+    Node::Src(match kinds[i] {
+      IKind::Subject => Src::Hot(i),
+      IKind::Create => Src::HotCreate(i),
+      IKind::Behavior => Src::Behavior(i, V::I(0)),
+    })
+  } else if cfg.time_ops && c.pick(5) == 0 {
+    if c.flag() {
+      Node::Src(Src::Interval(1 + c.pick(3) as u64))
+    } else {
+      Node::Src(Src::Timer(gen_v(c, cfg.alphabet), c.pick(4) as u64))
+    }
+  } else {
+    Node::Src(gen_cold_src(c, 3, cfg.alphabet))
+  }
+}
+
+pub fn gen_edge(c: &mut dyn Choices) -> Edge {
+  *c.one_of(&[Edge::Leading, Edge::Trailing, Edge::All])
+}
+
+/// unary operators outside the C03 catalogue
+fn gen_un_other(c: &mut dyn Choices, cfg: &GenCfg) -> Un {
+  let n_time = if cfg.time_ops { 9 } else { 0 };
+  let k = c.pick(7 + n_time);
+  match k {
+    0 => Un::OnError,
+    1 => Un::OnComplete,
+    2 => Un::Finalize,
+    3 => {
+      if cfg.share_ops {
+        Un::Share
+      } else {
+        Un::BoxIt
+      }
+    }
+    4 => Un::BoxIt,
+    5 => Un::GroupByFlatten(gen_keyf(c)),
+    6 => Un::CompleteStatus,
+    7 => Un::ObserveOn,
+    8 => Un::Delay(c.pick(4) as u64),
+    9 => Un::DelaySubscription(c.pick(3) as u64),
+    10 => Un::SubscribeOn,
+    11 => Un::Debounce(1 + c.pick(3) as u64),
+    12 => Un::ThrottleTime(1 + c.pick(3) as u64, gen_edge(c)),
+    13 => Un::Throttle(gen_edge(c)),
+    14 => Un::BufferWithTime(1 + c.pick(3) as u64),
+    _ => Un::BufferWithCountAndTime(1 + c.pick(3), 1 + c.pick(3) as u64),
+  }
+}
+
+pub fn gen_bin(c: &mut dyn Choices) -> Bin {
+  *c.one_of(&[Bin::Merge, Bin::Zip, Bin::CombineLatest, Bin::WithLatestFrom, Bin::TakeUntil, Bin::SkipUntil, Bin::Sample, Bin::Buffer])
+}
+
+pub fn gen_flat(c: &mut dyn Choices, k: usize) -> Flat {
+  match c.pick(5) {
+    0 => Flat::MergeAll(1 + c.pick(k + 1)),
+    1 => Flat::ConcatAll,
+    2 => Flat::Flatten,
+    3 => Flat::FlatMap,
+    _ => Flat::ConcatMap,
+  }
+}
+
+/// a pipeline over the whole catalogue
+pub fn gen_node(c: &mut dyn Choices, depth: usize, cfg: &GenCfg, kinds: &[IKind], next_input: &mut usize) -> Node {
+  if depth == 0 {
+    return gen_leaf(c, cfg, kinds, next_input);
+  }
+  match c.pick(10) {
+    0 => gen_leaf(c, cfg, kinds, next_input),
+    1..=3 => {
+      let inner = gen_node(c, depth - 1, cfg, kinds, next_input);
+      Node::Un(gen_un_c03(c, 3, cfg.alphabet), c.pick(4) == 0, Box::new(inner))
+    }
+    4..=5 => {
+      let inner = gen_node(c, depth - 1, cfg, kinds, next_input);
+      Node::Un(gen_un_other(c, cfg), c.pick(3) == 0, Box::new(inner))
+    }
+    6..=8 => {
+      let a = gen_node(c, depth - 1, cfg, kinds, next_input);
+      let b = gen_node(c, depth - 1, cfg, kinds, next_input);
+      Node::Bin(gen_bin(c), c.pick(3) == 0, Box::new(a), Box::new(b))
+    }
+    _ => {
+      if !cfg.flat_ops {
+        let inner = gen_node(c, depth - 1, cfg, kinds, next_input);
+        return Node::Un(gen_un_c03(c, 3, cfg.alphabet), false, Box::new(inner));
+      }
+      let outer = gen_node(c, depth - 1, cfg, kinds, next_input);
+      let k = 1 + c.pick(3);
+      let inners = (0..k).map(|_| gen_node(c, depth - 1, cfg, kinds, next_input)).collect();
+      Node::Flat(gen_flat(c, k), Box::new(outer), inners)
+    }
+  }
+}
+
+pub fn gen_kinds(c: &mut dyn Choices, n: usize, behavior: bool) -> Vec<IKind> {
+  (0..n)
+    .map(|_| match c.pick(if behavior { 4 } else { 3 }) {
+      0 | 1 => IKind::Subject,
+      2 => IKind::Create,
+      _ => IKind::Behavior,
+    })
+    .collect()
+}
+
+/// an event script over `n_inputs` hot inputs: inputs keep emitting after their
+/// own terminal, terminals are repeated, and (with `timed`) the clock and the
+/// executor are driven as well
+pub fn gen_script(c: &mut dyn Choices, n_inputs: usize, max_len: usize, alphabet: usize, timed: bool, mode: SchedMode) -> Vec<Step> {
+  let n = c.pick(max_len + 1);
+  let mut s = vec![];
+  for _ in 0..n {
+    let k = c.pick(if timed { 10 } else { 6 });
+    s.push(match k {
+      0 => Step::Emit(c.pick(n_inputs), Ev::C),
+      1 => Step::Emit(c.pick(n_inputs), Ev::Er(gen_e(c))),
+      2..=5 => Step::Emit(c.pick(n_inputs), Ev::N(gen_v(c, alphabet))),
+      6 => Step::Advance(1 + c.pick(3) as u64),
+      7 => Step::FireNext,
+      8 => {
+        if mode == SchedMode::AnyOrder {
+          Step::RunReady(c.pick(4))
+        } else {
+          Step::Run
+        }
+      }
+      _ => {
+        if mode == SchedMode::AnyOrder {
+          Step::RunReady(c.pick(4))
+        } else {
+          Step::Advance(1)
+        }
+      }
+    });
+  }
+  s
+}
+
+pub fn step_short(s: &Step) -> String {
+  match s {
+    Step::Emit(i, e) => format!("in{}:{}", i, ev_short(e)),
+    Step::Advance(n) => format!("+{n}t"),
+    Step::FireNext => "fire".into(),
+    Step::Run => "run".into(),
+    Step::RunReady(k) => format!("run#{k}"),
+    Step::Unsub => "UNSUB".into(),
+    Step::DropGuard => "DROPGUARD".into(),
+  }
+}
+pub fn script_short(s: &[Step]) -> String {
+  s.iter().map(step_short).collect::<Vec<_>>().join(" ")
+}
